@@ -63,7 +63,7 @@ func (o opts) list() []geom.TWKBWriterOption {
 		l = append(l, geom.TWKBCloseRings())
 	}
 	// options are independent settings: their order must not matter (rotate by a value derived from them)
-	rot := (o.pXY + 8 + o.pZ + 2*o.pM + len(o.idList)) % len(l)
+	rot := ((o.pXY+o.pZ+2*o.pM+len(o.idList))%len(l) + len(l)) % len(l)
 	l = append(l[rot:], l[:rot]...)
 	return l
 }
